@@ -2,6 +2,7 @@ package main
 
 import (
 	"fmt"
+	"sort"
 	"strings"
 
 	"golang.org/x/tools/go/ssa"
@@ -330,7 +331,53 @@ func (a *An) c14ReceiveOrder() {
 		mo := a.F.MustOK(f)
 		R.Check(mo.Has("passed:(len(bytes.Split($data, global:fragmentSeparator)) == 4)"), rule, "parseFragment|parts", "a fragment body has exactly index, total, data and a trailing separator", a.C.Pos(f.Pos()), "facts on success: "+strings.Join(filterFacts(mo.List()), "; "))
 	}
-	R.Floor(rule, 12)
+	// ... and nothing more: the sender emits an empty last piece when the length is a multiple of the piece size, so
+	// any further condition (on the piece, on what follows the separator) rejects fragments our own sender produces
+	if f := a.MustFn("parseFragment"); f != nil {
+		allowed := map[string]bool{
+			"(len(bytes.Split($data, global:fragmentSeparator)) == 4)":                  true,
+			"(bytesToUint16(bytes.Split($data, global:fragmentSeparator)[0])#1 == nil)": true,
+			"(bytesToUint16(bytes.Split($data, global:fragmentSeparator)[1])#1 == nil)": true,
+		}
+		conds, complete := a.acceptConditions(f, 3)
+		extra := []string{}
+		for c := range conds {
+			if !allowed[c] {
+				extra = append(extra, c)
+			}
+		}
+		sort.Strings(extra)
+		R.Check(complete && len(conds) >= 3 && len(extra) == 0, rule, "parseFragment|no-extra-condition", "a fragment body is accepted under exactly: four '|'/','-separated parts, index and total parse as 16-bit decimals", a.C.Pos(f.Pos()),
+			"acceptance also depends on: "+strings.Join(extra, "; ")+" — the sender emits an empty last piece when the message length is a multiple of the piece size, and such a series would never complete")
+	}
+	R.Floor(rule, 13)
+}
+
+// acceptConditions: the union of the branch conditions (with the truth taken) on the paths of f on which result idx
+// may be true, plus the result expression itself where it is computed.
+func (a *An) acceptConditions(f *ssa.Function, idx int) (map[string]bool, bool) {
+	out := map[string]bool{}
+	paths, complete := a.C.Paths(f, nil, 256)
+	for _, p := range paths {
+		if p.Ret == nil || p.Cut || idx >= len(p.Ret.Results) {
+			if p.Cut {
+				complete = false
+			}
+			continue
+		}
+		v := p.Resolve(resolveLocal(p.Ret.Results[idx]))
+		if k, ok := v.(*ssa.Const); ok {
+			if constStr(k) != "true" {
+				continue
+			}
+		} else {
+			out[a.C.Term(v)] = true
+		}
+		for _, d := range p.Decisions {
+			out[d.Term] = true
+		}
+	}
+	return out, complete
 }
 
 // any complete non-fragment message resets the context
